@@ -3,12 +3,13 @@ pub mod c05;
 pub mod c06;
 pub mod c07;
 pub mod c11;
+pub mod c12;
 pub mod c15;
 
 use crate::sup::PropDef;
 
 pub fn all() -> Vec<&'static PropDef> {
-  vec![&c03::DEF, &c05::DEF, &c06::DEF, &c07::DEF, &c11::DEF, &c15::DEF]
+  vec![&c03::DEF, &c05::DEF, &c06::DEF, &c07::DEF, &c11::DEF, &c12::DEF, &c15::DEF]
 }
 
 pub fn find(id: &str) -> Option<&'static PropDef> {
